@@ -669,6 +669,15 @@ func (lb *LoadBalancer) handleRequest(w http.ResponseWriter, r *http.Request, st
 
 // findHealthyBackend attempts to find a healthy backend with retries
 func (lb *LoadBalancer) findHealthyBackend(r *http.Request) *Backend {
+	// Re-examine every backend first so that elapsed unhealthy windows end
+	// under every strategy (strategies only select among healthy backends)
+	lb.mutex.RLock()
+	backends := lb.strategy.GetBackends()
+	lb.mutex.RUnlock()
+	for _, backend := range backends {
+		lb.IsBackendHealthy(backend)
+	}
+
 	for i := 0; i < 3; i++ { // Try up to 3 times to find a healthy backend
 		backend := lb.NextBackend(r)
 		if backend == nil {
